@@ -6,7 +6,7 @@ cd "$(dirname "$0")/.."
 [ -d work/cover ] || ./setup.sh > work-setup.log 2>&1
 for id in $ids; do
   s=$(date +%s)
-  ./check $id --tier $tier > /tmp/run_all_$id.log 2>&1; rc=$?
+  mkdir -p work/logs; ./check $id --tier $tier > work/logs/$tier-$id.log 2>&1; rc=$?
   e=$(date +%s)
-  echo "$id rc=$rc $((e-s))s $(grep -E 'VIOLATION|TOOL-ERROR' /tmp/run_all_$id.log | head -2 | tr '\n' ' ')"
+  echo "$id rc=$rc $((e-s))s $(grep -E 'VIOLATION|TOOL-ERROR' work/logs/$tier-$id.log | head -2 | tr '\n' ' ')"
 done
